@@ -273,6 +273,7 @@ func runC05(c *Ctx) {
 	}
 	c.Floor("C05-R2", "per-scope wipes in lock()", nPerScope, 3)
 	checkZeroMethodsWipeInPlace(c, "C05-R2")
+	checkEvictedAccountsAreWiped(c, "C05-R2")
 	// every place the managers keep address OBJECTS (which carry clear-text keys once unlocked) is visited by lock():
 	// the address cache, but also the per-account "last address" objects, which loadAccountInfo rebuilds from the
 	// private account key and which are not part of the address cache
@@ -479,6 +480,7 @@ func runC05(c *Ctx) {
 	checkAccountWithoutPrivateKey(c, "C05-R3")
 	checkPendingDerivationsHaveAccounts(c, "C05-R3")
 	checkPendingQueueOnlyDrainedByUnlock(c, "C05-R3")
+	checkUnlockLoopsComplete(c, "C05-R3")
 }
 
 // inferHolders: struct fields of waddrmgr types that receive decrypted or private-key material.
@@ -794,4 +796,86 @@ func failureExitsWithoutLock(p *Program, fn *ssa.Function, depth int, memo map[*
 		return true
 	}
 	return q.From(nil)
+}
+
+// checkEvictedAccountsAreWiped: Manager.lock() wipes the account objects it finds in the cache. An account that leaves the
+// cache while it may hold its private key is out of lock()'s reach from then on, so whoever removes it wipes it first:
+// every path to a delete on ScopedKeyManager.acctInfo has passed Zero() of an acctKeyPriv, or has found the entry absent.
+func checkEvictedAccountsAreWiped(c *Ctx, rule string) {
+	p := c.P
+	n := 0
+	for _, fn := range p.FuncsIn("waddrmgr") {
+		for _, call := range callsNamed(fn, "delete") {
+			if len(call.Call.Args) == 0 {
+				continue
+			}
+			if tn, f, _, okf := fieldOf(stripConv(call.Call.Args[0])); !okf || tn != "ScopedKeyManager" || f != "acctInfo" {
+				continue
+			}
+			n++
+			zeroes := func(ins ssa.Instruction) bool {
+				z, ok := ins.(*ssa.Call)
+				if !ok || calleeShort(&z.Call) != "Zero" || len(z.Call.Args) == 0 {
+					return false
+				}
+				_, f, _, okf := fieldOf(stripConv(z.Call.Args[0]))
+				return okf && f == "acctKeyPriv"
+			}
+			q := &PathQuery{Fn: fn, Barrier: zeroes}
+			q.EdgeBarrier = func(from *ssa.BasicBlock, si int) bool {
+				ef := edgeFactOf(from, si)
+				if ef == nil {
+					return false
+				}
+				// entry not cached: the comma-ok of the lookup is false, or the looked-up account / its key is nil
+				if ex, ok := ef.V.(*ssa.Extract); ok && ex.Index == 1 && ef.Kind == "false" {
+					if _, isLk := ex.Tuple.(*ssa.Lookup); isLk {
+						return true
+					}
+				}
+				if ef.Kind == "nil" {
+					if _, f, _, okf := fieldOf(stripConv(ef.V)); okf && f == "acctKeyPriv" {
+						return true // no private key to wipe
+					}
+				}
+				return false
+			}
+			q.Target = func(ins ssa.Instruction, _ *ssa.BasicBlock) bool { return ins == ssa.Instruction(call) }
+			c.Check(rule, "evicted-account-wiped-first:"+fnName(fn), call.Pos(), len(q.From(nil)) == 0,
+				fnName(fn)+" removes an account from the scoped manager's cache without wiping its private account key: evicted while unlocked, the object keeps the clear-text key and Lock() no longer reaches it")
+		}
+	}
+	c.Floor(rule, "account-cache evictions", n, 1)
+}
+
+// checkUnlockLoopsComplete: Unlock restores the private account key of EVERY cached account that has one and derives
+// EVERY pending address: its loops over the scoped managers, the cached accounts and the pending derivations have no
+// exit other than an error (a `break` where a `continue` is meant leaves the accounts visited later — map order! —
+// without their key although the manager reports unlocked).
+func checkUnlockLoopsComplete(c *Ctx, rule string) {
+	p := c.P
+	ul := p.Func("waddrmgr", "Manager", "Unlock")
+	if ul == nil {
+		c.Unresolved(rule, "Manager.Unlock")
+		return
+	}
+	n := 0
+	for _, f := range p.regionOf(ul) {
+		idx := map[string]int{}
+		for _, l := range loopsOf(f) {
+			if l.Kind == "for" {
+				continue
+			}
+			n++
+			key := f.Name() + "/range:" + l.Over
+			idx[key]++
+			if idx[key] > 1 {
+				key = fmt.Sprintf("%s#%d", key, idx[key])
+			}
+			exits := l.EarlyExits(p)
+			c.Check(rule, "unlock-loop-visits-every-element:"+key, l.Header.Instrs[0].Pos(), len(exits) == 0,
+				"a loop of Manager.Unlock can be left before all of its elements were handled without reporting an error: "+strings.Join(exits, "; "))
+		}
+	}
+	c.Floor(rule, "range loops of Unlock", n, 3)
 }
